@@ -88,6 +88,17 @@ def oracle(ctx, line, res):
     if len(args) != 2 or not all(isinstance(x, Quantity) for x in args):
         return []
     a, b = args
+    if a.unit.dimension is a.unit.dimension and a.unit.dimension is b.unit.dimension and op in ("eq", "ne", "lt", "le", "gt", "ge"):
+        from .c12 import scale_of, si as kelvin_si
+        if scale_of(a.unit) is not None and scale_of(b.unit) is not None:
+            ka, kb = kelvin_si(ctx, a), kelvin_si(ctx, b)
+            if ka is not None and kb is not None and abs(ka - kb) > F(1, 10**7) * max(abs(ka), abs(kb), F(300)):
+                want = {"eq": ka == kb, "ne": ka != kb, "lt": ka < kb, "le": ka <= kb, "gt": ka > kb, "ge": ka >= kb}[op]
+                exp = "ok\tb\t%s" % ("true" if want else "false")
+                if res != exp:
+                    fails.append({"kind": "scale-comparison-wrong", "opname": op, "a": str(a), "b": str(b), "got": res, "want": exp})
+            ctx.oracle_checks += 1
+            return fails
     sa, sb = si(ctx, a), si(ctx, b)
     if sa is None or sb is None:
         return []
@@ -254,7 +265,24 @@ def generate(ctx, n_ops):
             src, dst = ctx.gen_units(clean_bias=0.5)
             pa = ctx.si_prefix() if rng.random() < 0.4 else None
             pb = ctx.si_prefix() if rng.random() < 0.4 else None
-            if info and rng.random() < 0.08:
+            temps = None
+            if rng.random() < 0.15:
+                # the same temperature written on two scales (comparisons only: == and < are decided by the
+                # kelvin value; sums on offset scales are not part of the property)
+                names = [n for n in ("kelvin", "celsius", "Rankine", "fahrenheit") if n in Unit._by_name]
+                if len(names) >= 2:
+                    n1, n2 = rng.sample(names, 2)
+                    if rng.random() < 0.5 and "celsius" in names and "kelvin" in names:
+                        # a negative reading on a scale with an offset against a small absolute temperature:
+                        # the signs order them one way, the temperatures the other
+                        n1 = rng.choice([n for n in ("celsius", "fahrenheit") if n in names])
+                        n2 = rng.choice([n for n in ("kelvin", "Rankine") if n in names])
+                        if rng.random() < 0.5:
+                            n1, n2 = n2, n1
+                    temps = (Unit._by_name[n1], Unit._by_name[n2])
+                    src, dst = [(temps[0], 1)], [(temps[1], 1)]
+                    pa = pb = None
+            if temps is None and info and rng.random() < 0.08:
                 # mixed SI / IEC prefixes on information units
                 src = [(rng.choice(info), 1)]
                 dst = [(rng.choice(info), 1)]
@@ -264,16 +292,23 @@ def generate(ctx, n_ops):
             b = yield from build(dst, pb)
             if a is None or b is None:
                 continue
-            qa = yield from qnew(ctx.magnitude(), a)
-            # make b physically close to a sometimes (comparisons near but not at ties)
-            qb = yield from qnew(ctx.magnitude(), b)
+            if temps:
+                tm = ["i:-40", "i:-10", "i:-273", "i:0", "i:5", "i:100", "i:300", "i:-459", "i:37"]
+                qa = yield from qnew(rng.choice(tm), a)
+                qb = yield from qnew(rng.choice(tm), b)
+            else:
+                qa = yield from qnew(ctx.magnitude(), a)
+                # make b physically close to a sometimes (comparisons near but not at ties)
+                qb = yield from qnew(ctx.magnitude(), b)
             if qa is None or qb is None:
                 continue
-            for op in rng.sample(["add", "sub", "eq", "lt", "ge", "le", "gt"], 3):
+            for op in (rng.sample(["eq", "lt", "ge", "le", "gt"], 3) if temps else rng.sample(["add", "sub", "eq", "lt", "ge", "le", "gt"], 3)):
                 res = yield "X\t%s\tq%d\tq%d" % (op, qa, qb)
                 emitted += 1
                 if res.startswith("ok\tq"):
                     ctx.nq += 1
+            if temps:
+                continue
             # the same b re-expressed in a's unit, then compared with the original b
             res = yield "X\tconv\tq%d\tu%d" % (qb, a)
             emitted += 1
